@@ -23,6 +23,7 @@ mod c09;
 mod c14;
 mod c08;
 mod c18;
+mod c17;
 
 pub use util::*;
 
@@ -54,6 +55,7 @@ fn props() -> Vec<Prop> {
         Prop { id: "C14", run: c14::run, gen: c14::gen },
         Prop { id: "C08", run: c08::run, gen: c08::gen },
         Prop { id: "C18", run: c18::run, gen: c18::gen },
+        Prop { id: "C17", run: c17::run, gen: c17::gen },
     ]
 }
 
